@@ -138,7 +138,7 @@ class Parenthesis(TypedExpression):
             else:
                 inner_indent = indent
                 inner = self.value.rebuild(indent=inner_indent, inline=True)
-                if inner.startswith("#"):
+                if inner.lstrip(" ").startswith("#"):
                     # A line comment cannot share the line of the opening
                     # parenthesis (a re-parse attaches it elsewhere): the body
                     # that lost its first line to an edit opens on a new line.
@@ -149,7 +149,7 @@ class Parenthesis(TypedExpression):
             return self.add_trivia(f"({inner})", indent, inline)
 
         inner = self.value.rebuild(indent=indent, inline=True)
-        if inner.startswith("#"):
+        if inner.lstrip(" ").startswith("#"):
             # Same as above for a parenthesis written on one line.
             inner = "\n" + self.value.rebuild(indent=indent + 2, inline=False)
         return self.add_trivia(f"({inner})", indent, inline)
